@@ -195,6 +195,10 @@ func c03() {
 				mp.LongListChance, mp.BigNamesChance = 2, 3
 			}
 			p = vlib.GenMixed(r, t, mp)
+			if i%7 == 4 {
+				run.Count("policies_with_data_bits_in_group_actions", 1)
+				vlib.WithDataBits(r, p)
+			}
 		}
 		// non-canonical spellings of an operation (other letter case, surrounding white space): such a policy may be
 		// rejected; if it is accepted, the condition must count with the meaning of the documented name
